@@ -67,3 +67,27 @@ mut("c19_recompute_off_by_one", "aggregation/nash_mtl.py",
     "        if (self.step % self.update_weights_every) == 0:",
     "        if (self.step % self.update_weights_every) == 0 or self.step == 1:",
     ["C19"])
+mut("c07_always_vmap", "autojac/_transform/jac.py",
+    "    if chunk_size == 1:\n        grad_outputs",
+    "    if chunk_size == 1 and False:\n        grad_outputs",
+    ["C07"])
+mut("c07_ignore_chunk_size", "autojac/_transform/jac.py",
+    "max_chunk_size = self.chunk_size if self.chunk_size is not None else m",
+    "max_chunk_size = m",
+    ["C07"])
+mut("c07_chunk_size_plus_one_when_large", "autojac/_transform/jac.py",
+    "max_chunk_size = self.chunk_size if self.chunk_size is not None else m",
+    "max_chunk_size = (self.chunk_size + (1 if self.chunk_size >= 3 else 0)) if self.chunk_size is not None else m",
+    ["C07"])
+mut("c07_early_sweeps_free_graph", "autojac/_transform/jac.py",
+    "get_vjp_retain = partial(_get_vjp, retain_graph=True)",
+    "get_vjp_retain = partial(_get_vjp, retain_graph=self.retain_graph)",
+    ["C07", "C13"])
+mut("c13_last_sweep_retains", "autojac/_transform/jac.py",
+    "get_vjp_last = partial(_get_vjp, retain_graph=self.retain_graph)",
+    "get_vjp_last = partial(_get_vjp, retain_graph=True)",
+    ["C13"])
+mut("c13_task_grad_retains", "autojac/mtl_backward.py",
+    "    grad = Grad([loss], to_differentiate, retain_graph)",
+    "    grad = Grad([loss], to_differentiate, True)",
+    ["C13"])
